@@ -151,6 +151,8 @@ func (q *Queue) Add(elem *queue.Elem) (err error) {
 			if dropErr == queue.ErrDropExpiredInflight {
 				q.notifier.NotifyInflightAdded(-1)
 				q.current--
+				// the entry is gone: a later Remove with its packet id must not touch the list again
+				delete(q.readCache, dropElem.ID())
 			}
 			if dropBytes == nil {
 				q.notifier.NotifyDropped(elem, dropErr)
@@ -171,55 +173,57 @@ func (q *Queue) Add(elem *queue.Elem) (err error) {
 		dropErr = queue.ErrDropQueueFull
 		drop = true
 		var rs []interface{}
-		// drop expired inflight message
-		rs, err = redigo.Values(conn.Do("lrange", getKey(q.clientID), 0, q.len))
+		rs, err = redigo.Values(conn.Do("lrange", getKey(q.clientID), 0, -1))
 		if err != nil {
 			return
 		}
-		var frontBytes []byte
-		var frontElem *queue.Elem
+		es := make([]*queue.Elem, len(rs))
 		for i := 0; i < len(rs); i++ {
-			b := rs[i].([]byte)
 			e := &queue.Elem{}
-			err = e.Decode(b)
+			err = e.Decode(rs[i].([]byte))
 			if err != nil {
 				return
 			}
-			// inflight message
-			if i < q.current && queue.ElemExpiry(now, e) {
-				dropBytes = b
-				dropElem = e
+			es[i] = e
+		}
+		// drop expired inflight message
+		for i := 0; i < len(es) && i < q.current; i++ {
+			if queue.ElemExpiry(now, es[i]) {
+				dropBytes = rs[i].([]byte)
+				dropElem = es[i]
 				dropErr = queue.ErrDropExpiredInflight
 				return
-			}
-			// non-inflight message
-			if i >= q.current {
-				if i == q.current {
-					frontBytes = b
-					frontElem = e
-				}
-				// drop qos0 message in the queue
-				pub := e.MessageWithID.(*queue.Publish)
-				// drop expired non-inflight message
-				if pub.ID() == 0 && queue.ElemExpiry(now, e) {
-					dropBytes = b
-					dropElem = e
-					dropErr = queue.ErrDropExpired
-					return
-				}
-				if pub.ID() == 0 && pub.QoS == packets.Qos0 && dropElem == nil {
-					dropBytes = b
-					dropElem = e
-				}
 			}
 		}
 		// drop the current elem if there is no more non-inflight messages.
 		if q.inflightDrained && q.current >= q.len {
 			return
 		}
-		rs, err = redigo.Values(conn.Do("lrange", getKey(q.clientID), q.current, q.len))
-		if err != nil {
-			return err
+		// front is the oldest non-inflight message.
+		var frontBytes []byte
+		var frontElem *queue.Elem
+		for i := q.current; i < len(es); i++ {
+			// inflight messages (publish or pubrel) that have not been re-read yet are not candidates.
+			pub, ok := es[i].MessageWithID.(*queue.Publish)
+			if !ok || pub.ID() != 0 {
+				continue
+			}
+			// drop expired non-inflight message
+			if queue.ElemExpiry(now, es[i]) {
+				dropBytes = rs[i].([]byte)
+				dropElem = es[i]
+				dropErr = queue.ErrDropExpired
+				return
+			}
+			if frontElem == nil {
+				frontBytes = rs[i].([]byte)
+				frontElem = es[i]
+			}
+			// drop qos0 message in the queue
+			if pub.QoS == packets.Qos0 && dropElem == nil {
+				dropBytes = rs[i].([]byte)
+				dropElem = es[i]
+			}
 		}
 		if dropElem != nil {
 			return
@@ -227,12 +231,10 @@ func (q *Queue) Add(elem *queue.Elem) (err error) {
 		if elem.MessageWithID.(*queue.Publish).QoS == packets.Qos0 {
 			return
 		}
-		if frontElem != nil {
-			// drop the front message
-			dropBytes = frontBytes
-			dropElem = frontElem
-		}
-		// the the messages in the queue are all inflight messages, drop the current elem
+		// drop the front message,
+		// or the current elem if the messages in the queue are all inflight messages.
+		dropBytes = frontBytes
+		dropElem = frontElem
 		return
 	}
 	return nil
